@@ -54,6 +54,10 @@ class C15:
                 for lo in range(0, hi, step):
                     yield {"t": "range", "v": v, "op": op, "lo": lo, "hi": min(hi, lo + step)}
                 yield {"t": "bounds", "v": v, "op": op}
+        from vf.pool import HOSTS
+        for h in HOSTS:
+            for v in VERSIONS:
+                yield {"t": "host", "v": v, "host": h, "op": 0}
 
     def judge(self, case, ctx):
         res = Result()
@@ -65,6 +69,8 @@ class C15:
         name = opc.opname[op] if op < len(opc.opname) else "<%d>" % op
         t = case.get("t")
         w = ctx.pool.ref(v)
+        if t == "host":
+            return self.judge_host(case, ctx, res)
         if t == "range":
             lo, hi = case["lo"], case["hi"]
             r = w.call("stack_effect", ranges=[[op, lo, hi]], pairs=[[op, None]])
@@ -127,6 +133,38 @@ class C15:
         if keys:
             res.sample = {"version": v, "opcode": op, "opname": name, "operands": "%s..%s" % (args[0], args[-1]),
                           "accepted_by_cpython": n}
+        return res
+
+
+    def judge_host(self, case, ctx, res):
+        """the library runs on several Python versions: the same (opcode, operand) gives the same effect on each"""
+        from vf.pool import HOSTS
+        v, h = case["v"], case.get("host")
+        if h not in HOSTS:
+            res.reject = "malformed-case"
+            return res
+        opc = self.opcs[v]
+        ops = self.all_ops[v]
+        args = list(range(0, 40)) + [255, 256, 257, 0x1FF, 0xFFF0, 0xFFFF, 0x10000, 0x10003] + BOUNDS
+        r = ctx.pool.host(h).call("x_stack_effect", version=[int(p) for p in v.split(".")], ops=ops, args=args)
+        xse = self.x.cross_dis.xstack_effect
+        n = 0
+        for op, row in zip(ops, r["rows"]):
+            for a, got in zip(args, row):
+                try:
+                    here = xse(op, opc, a)
+                except Exception as e:
+                    here = "raised %s" % type(e).__name__
+                n += 1
+                if here != got:
+                    name = opc.opname[op] if op < len(opc.opname) else "<%d>" % op
+                    res.fail("C15|%s|%s|host-dependent" % (v, name), "%s %s operand %d: xstack_effect is %s when xdis runs on Python %s, "
+                             "%s on the driver's 3.12 (which agrees with CPython's dis.stack_effect in the sweep)" % (v, name, a, got, h, here))
+                    break
+        res.evals = n
+        res.classes = ["version:" + v, "kind:host", "host:" + h]
+        res.nt_keys = [[v, "host", h]]
+        res.sample = {"version": v, "xdis_host": h, "pairs": n}
         return res
 
 
